@@ -26,16 +26,16 @@ func (E *Engine) lookup(fr *Frame, st *State, t *ssa.Lookup) Val {
 		return E.strAt(s, i)
 	}
 	mt := E.mapType(t.X.Type(), fr.tenv)
-	ks, vs := E.sortOf(mt.Key(), fr.tenv), E.sortOf(mt.Elem(), fr.tenv)
+	vs := E.sortOf(mt.Elem(), fr.tenv)
 	m := E.term(fr, t.X)
 	k := E.term(fr, t.Index)
-	dom := E.mapDom(st, m, ks)
+	dom := E.mapDom(st, m, mt, fr.tenv)
 	has := tb.Select(dom, k)
 	var v *Term
 	if vs == SUnit {
 		v = E.unit()
 	} else {
-		v = tb.Ite(has, tb.Select(E.mapVal(st, m, ks, vs), k), E.zero(mt.Elem(), fr.tenv))
+		v = tb.Ite(has, tb.Select(E.mapVal(st, m, mt, fr.tenv), k), E.zero(mt.Elem(), fr.tenv))
 		E.assumeLoaded(fr, st, v, mt.Elem())
 	}
 	if t.CommaOk {
@@ -47,11 +47,11 @@ func (E *Engine) lookup(fr *Frame, st *State, t *ssa.Lookup) Val {
 func (E *Engine) mapUpdate(fr *Frame, st *State, t *ssa.MapUpdate) {
 	tb := E.tb
 	mt := E.mapType(t.Map.Type(), fr.tenv)
-	ks, vs := E.sortOf(mt.Key(), fr.tenv), E.sortOf(mt.Elem(), fr.tenv)
+	vs := E.sortOf(mt.Elem(), fr.tenv)
 	m := E.term(fr, t.Map)
 	k := E.term(fr, t.Key)
 	E.safety(fr, st, "nilmap", tb.Not(tb.Eq(m, E.null())), t)
-	dk, dks := E.mdomKey(ks)
+	dk, dks := E.mdomKey(mt, fr.tenv)
 	dh := E.get(st, dk, dks)
 	E.set(st, dk, tb.Store(dh, m, tb.Store(tb.Select(dh, m), k, tb.True())))
 	if vs != SUnit {
@@ -64,7 +64,7 @@ func (E *Engine) mapUpdate(fr *Frame, st *State, t *ssa.MapUpdate) {
 		default:
 			E.fail("map update with %T", x)
 		}
-		vk, vks := E.mvalKey(ks, vs)
+		vk, vks := E.mvalKey(mt, fr.tenv)
 		vh := E.get(st, vk, vks)
 		E.set(st, vk, tb.Store(vh, m, tb.Store(tb.Select(vh, m), k, v)))
 	}
@@ -72,8 +72,7 @@ func (E *Engine) mapUpdate(fr *Frame, st *State, t *ssa.MapUpdate) {
 
 func (E *Engine) mapDelete(fr *Frame, st *State, m, k *Term, mt *types.Map) {
 	tb := E.tb
-	ks := E.sortOf(mt.Key(), fr.tenv)
-	dk, dks := E.mdomKey(ks)
+	dk, dks := E.mdomKey(mt, fr.tenv)
 	dh := E.get(st, dk, dks)
 	// delete on a nil map is a no-op
 	upd := tb.Store(dh, m, tb.Store(tb.Select(dh, m), k, tb.False()))
@@ -135,7 +134,7 @@ func (E *Engine) rangeInstr(fr *Frame, st *State, t *ssa.Range) Val {
 	case *types.Map:
 		ks, vs := E.sortOf(tt.Key(), fr.tenv), E.sortOf(tt.Elem(), fr.tenv)
 		E.iterCount++
-		it := &Iter{isMap: true, m: E.term(fr, t.X), ks: ks, vs: vs, kt: tt.Key(), vt: tt.Elem(), instr: t,
+		it := &Iter{isMap: true, m: E.term(fr, t.X), ks: ks, vs: vs, kt: tt.Key(), vt: tt.Elem(), instr: t, mt: E.subst(tt, fr.tenv).(*types.Map),
 			visKey: fmt.Sprintf("visited$%d$%s", E.iterCount, sanitize(string(ks)))}
 		E.set(st, it.visKey, E.tb.ConstArray(ArraySort(ks, SBool), E.tb.False()))
 		fr.iters[t] = it
@@ -170,7 +169,7 @@ func (E *Engine) next(fr *Frame, st *State, t *ssa.Next) Val {
 		return Tuple{okT, pos, r}
 	}
 	vis := E.get(st, it.visKey, ArraySort(it.ks, SBool))
-	dom := E.mapDom(st, it.m, it.ks)
+	dom := E.mapDom(st, it.m, it.mt, nil)
 	k := tb.Fresh("key", it.ks)
 	okT := tb.Fresh("more", SBool)
 	// more <=> some key of the current domain has not been visited; the produced key is such a key
@@ -187,7 +186,7 @@ func (E *Engine) next(fr *Frame, st *State, t *ssa.Next) Val {
 	if it.vs == SUnit {
 		v = E.unit()
 	} else {
-		v = tb.Select(E.mapVal(st, it.m, it.ks, it.vs), k)
+		v = tb.Select(E.mapVal(st, it.m, it.mt, nil), k)
 		E.assumeLoaded(fr, st, v, it.vt)
 	}
 	return Tuple{okT, k, v}
